@@ -132,7 +132,7 @@ ob("lex_charsets", ["C03"], "lexer.rs", unwind=12, cuts=X1_ERR, functions=["pars
 for l in (1, 2, 3, 4):
     ob("lex_next_vs_ref_l%d" % l, ["C03", "C01"], "lexer.rs", unwind=l + 2, unwindset=MEMCHR, unwindset_optional=True,
        cuts=X1_ERR, stubs=[FMT_STUB],
-       tier="quick" if l <= 2 else "thorough", timeout=1800, mem_gb=12, functions=LEXFN,
+       tier="quick" if l <= 3 else "thorough", timeout=1800, mem_gb=12, functions=LEXFN,
        bound="all buffers of %d bytes; first and second token (range and cursor) against the reference tokenizer" % l)
 for l in (2, 3):
     ob("lex_peek_l%d" % l, ["C03", "C01"], "lexer.rs", unwind=l + 2, unwindset=MEMCHR, unwindset_optional=True, cuts=X1_ERR,
@@ -186,7 +186,7 @@ ob("strlex_lit_step_cont_l4", ["C03"], "strlex.rs", unwind=5, cuts=X1_ERR, stubs
 HLFN = ["parser::lexer::str::HexStringLexer::next_hex_byte", "parser::lexer::str::HexStringLexer::next_non_whitespace_char"]
 for l in (1, 2, 3, 4):
     ob("strlex_hex_l%d" % l, ["C03", "C01"], "strlex.rs", unwind=l + 3, cuts=X1_ERR, stubs=[FMT_STUB],
-       tier="quick" if l <= 2 else "thorough", timeout=2400, mem_gb=12, functions=HLFN,
+       tier="quick" if l <= 3 else "thorough", timeout=2400, mem_gb=12, functions=HLFN,
        bound="all %d-byte texts after '<'" % l)
 
 # ---------------------------------------------------------------------------------------------------------------------
@@ -217,6 +217,9 @@ for rev in (2, 3):
        bound="revision %d, every user password of 0..=40 bytes, every /P, key size %s: hashed bytes = pad32(password) || O || P_le || ID, "
              "%s, file key = first digest" % (rev, "5" if rev == 2 else "16", "no extra rounds" if rev == 2 else "50 extra MD5 rounds over key_size bytes"))
 
+ob("crypt_kdf_user_rev3_long_key", ["C06", "C14"], "crypt.rs", unwind=54, cuts=X1_ALL, stubs=[FMT_STUB, RS_STUB, MD5_STUB, RC4_STUB, CTX_STUB],
+   timeout=3600, mem_gb=24, tier="quick", functions=["crypt::Decoder::from_password", "crypt::Decoder::from_password::key_derivation_user_password_rc4"],
+   bound="revision 3, /Length 256 (key longer than the digest), every 4-byte password: 50 rounds over min(key_size,16) bytes, no panic")
 ob("crypt_owner_unwrap_rev3_40bit", ["C06"], "crypt.rs", unwind=54, cuts=X1_ALL, stubs=[FMT_STUB, RS_STUB, MD5_STUB, RC4_STUB, CTX_STUB],
    timeout=3600, mem_gb=24, tier="quick", functions=["crypt::Decoder::from_password", "crypt::Decoder::from_password::key_derivation_owner_password_rc4"],
    bound="revision 3, 40-bit key, every 4-byte owner password: /O is unwrapped with exactly 20 RC4 passes keyed with key XOR pass number")
@@ -288,11 +291,14 @@ ob("font_widths_commute", ["C19"], "font.rs", unwind=16, timeout=1200, mem_gb=12
    bound="5 concrete (first_char, len, code a, code b) shapes; both insertion orders give the same table")
 
 for h in ("object_opt_i32_dangling", "object_opt_name_dangling", "object_opt_bool_dangling", "object_opt_f32_dangling",
-          "object_opt_rect_dangling", "object_opt_rcref_dangling", "object_opt_mayberef_dangling"):
+          "object_opt_rect_dangling", "object_opt_rcref_dangling", "object_opt_mayberef_dangling", "object_opt_nested_required"):
     ob(h, ["C18"], "object.rs", unwind=6, cuts=X1_ALL + ["std::sync::Arc<error::PdfError>"], stubs=[FMT_STUB], timeout=900, mem_gb=12,
        functions=["object::<impl Object for Option<T>>::from_primitive", "primitive::Primitive::resolve", "scalar reader of T"],
-       bound="Option<%s> of a reference to a free / never-defined object (every object number and generation), strict and tolerant, "
-             "with a stand-in resolver returning the bare FreeObject / NullRef errors of Storage::resolve_ref" % h.split("_")[2])
+       bound=("Option<%s> of a reference to a free / never-defined object (every object number and generation), strict and tolerant, "
+              "with a stand-in resolver returning the bare FreeObject / NullRef errors of Storage::resolve_ref" % h.split("_")[2])
+       if h != "object_opt_nested_required" else
+       "Option<T> whose inner reader fails with a missing-object error wrapped in Try / FromPrimitive context (a dangling REQUIRED "
+       "entry of T): stays an error in strict mode, None in tolerant mode")
 # ---------------------------------------------------------------------------------------------------------------------
 # file.rs: C18 (Option reader against the real Storage resolver)
 # ---------------------------------------------------------------------------------------------------------------------
